@@ -56,6 +56,20 @@ split by `splitHostmask` (true since the `fix:` that splits off the host first; 
 `a!b@c!d` was a counter-example). -/
 theorem hostFields_total (p : Str) : (hostFields p).isSome = true := hostFields_isSome p
 
+/-- `.nick/.user/.host` of a user prefix re-join to the prefix (`nick!user@host`), the host has no `@`
+and the user no `!`; any other prefix is copied to all three. -/
+theorem hostFields_join (p n u h : Str) (hf : hostFields p = some (n, u, h)) :
+    (isUserHostmask p = true ∧ p = n ++ '!' :: u ++ '@' :: h ∧ '@' ∉ h ∧ '!' ∉ u) ∨
+    (isUserHostmask p = false ∧ n = p ∧ u = p ∧ h = p) := by
+  unfold hostFields at hf
+  split at hf
+  · rename_i hu
+    left; exact ⟨hu, splitHostmask_join hf⟩
+  · rename_i hu
+    right
+    simp only [Option.some.injEq, Prod.mk.injEq] at hf
+    exact ⟨by simpa using hu, hf.1.symm, hf.2.1.symm, hf.2.2.symm⟩
+
 /-- Totality of the whole constructor, including the part after the `try` block. -/
 theorem parseFull_total (timeOk : Str → Bool) (l : Str) :
     (∃ m n u h, parseFull timeOk l = .ok m (addLF l) n u h) ∨ parseFull timeOk l = .malformed := by
